@@ -23,14 +23,17 @@
 //	        binding is asserted for the signature flow only; a bearer token accepted under another hostname
 //	        of the same server is the probe "token-other-hostname-accepted"; (b) the exact expiry instant may
 //	        go either way; (c) "a signature valid under P's key" is what core/crypto.Verify says, so
-//	        re-encodings that Verify tolerates (ECDSA trailing bytes, non-canonical base64 tail bits) are
-//	        probes ("altered-bytes-still-valid"), not violations; (d) which public key the server chose to
+//	        altered signatures that Verify tolerates (bytes appended after an ECDSA signature's DER) are the
+//	        probe "altered-bytes-still-valid" and other spellings of the same bytes (non-canonical base64
+//	        tail bits, parameter order, duplicates, ...) the probe "neutral-reencoding-accepted", not
+//	        violations; (d) which public key the server chose to
 //	        verify with (header or bound in the state) is not asserted, only that P's key verifies.
 //	client  AuthenticatedDo returning (S, nil) is allowed only if one of the responses delivered during this
 //	        call carried a sig that verifies under S's key over (a challenge-server this call sent, the
-//	        client's public key, the hostname the client used); or the call started with a bearer token and S
-//	        is the identity proven to this client for this hostname when it got the token (token path, not
-//	        covered by the statement: weakest reading). Otherwise C19/client/unproven-server/<why>.
+//	        client's public key, the hostname the client used); or the call did not open with a fresh
+//	        challenge (the client relied on the token it stored) and S is the identity of this client's last
+//	        successful call for this hostname (token path, not covered by the statement: weakest reading).
+//	        Otherwise C19/client/unproven-server/<why>.
 //	honest  sanity: an untampered call of a client whose token store for the hostname was never touched by
 //	        the adversary succeeds, reports the server's ID, and Next saw the client's ID; a spec-conforming
 //	        signature by mallory over a fresh challenge is accepted as mallory (validates the reference
@@ -41,10 +44,52 @@
 // and every mutation is designed so that its accept/reject outcome does not depend on random bytes (e.g.
 // padding-sensitive mutations are not applied to variable-length ECDSA/secp256k1 signatures).
 //
-// Sensitivity (overlay copies of /repo files, one change at a time, 1 worker, <=30 s each; see the end of
-// this comment for what caught each):
+// Sensitivity (overlay copies of /repo files, one change at a time, seed 1, one worker, 30 s each = 3-7 k runs;
+// "run" is the first run index that reported the class; hs/ = p2p/http/auth/internal/handshake/):
 //
-//	SENSITIVITY-BLOCK
+//	M1  hs/server.go Unmarshal: result of the HMAC compare ignored          run 2    server/unproven-peer/altered-or-forged-token
+//	                                                                         (forged token, stale MAC), then altered-or-forged-state,
+//	                                                                         token-of-other-server, honest/wrong-server-id
+//	M19 hs/server.go Unmarshal: HMAC compared over its first 4 bytes only   run 31   altered-or-forged-token (flip-head byte 7 of a token)
+//	M2  hs/server.go VerifyChallenge: IsToken check removed                 run 45   server/unproven-peer/token-as-challenge (mallory signs
+//	                                                                         the empty challenge of a bearer-token blob)
+//	M2b hs/server.go VerifyBearer: !IsToken check removed                   MISSED, not observable: challenge state carries no peer ID,
+//	                                                                         PeerID() fails and Next is not called (401 instead of 400)
+//	M3  hs/server.go VerifyChallenge: opaque-hostname compare removed       run 28   challenge-of-other-hostname (the first version needed
+//	                                                                         run 431 through a re-hosted call; the challenge source
+//	                                                                         "fresh-under-other-hostname" was added for it)
+//	M3b hs/handshake.go genDataToSign skips "hostname" (both sides agree)   run 0    invalid-sig, client/unproven-server/no-valid-signature,
+//	                                                                         honest/spec-client-rejected
+//	M8  hs/server.go verifySig takes the hostname from the opaque state     MISSED, equivalent: the compare M3 removes makes both equal
+//	M4  hs/server.go challenge TTL check removed                            run 1    expired-challenge (mallory's own, expiry+1ns)
+//	M4d hs/server.go challenge TTL + 2 s                                    run 1    expired-challenge (expiry+1ns; expiry+1s at run 20)
+//	M4b hs/server.go token TTL check removed                                run 6    expired-token (honest client's own late reuse)
+//	M4c hs/server.go token TTL compare inverted                             run 0    honest/status, run 6 expired-token
+//	M7  hs/server.go VerifyChallenge: verifySig not called                  run 1    sig-of-other-key (claims-key-of-c0), invalid-sig,
+//	                                                                         undecodable-sig, sig-over-other-hostname, unknown-peer
+//	M6  hs/server.go client-initiated: verifies with the header's key,      run 17   sig-of-other-key (challenge bound to c0, signed and
+//	    reports the key bound in the state                                           presented by mallory)
+//	M20 hs/server.go reports the header's public-key although another       run 656  sig-of-other-key (replayed honest answer with an injected
+//	    (bound) key verified                                                         public-key parameter)
+//	M9  auth/server.go: error of hs.PeerID() ignored                        run 0    no-credential (Next called with the empty peer ID)
+//	M5  hs/client.go verifySig returns nil                                  run 7    client/unproven-server/no-valid-signature, then
+//	                                                                         signed-by-another-key, unknown-identity
+//	M5b hs/client.go verifies over the echoed, not its own challenge        run 0    honest/call-failed
+//	M11 hs/client.go server ID taken from the latest public-key parameter   run 275  client/unproven-server/signed-by-another-key (forge
+//	    while the first key keeps verifying                                          variant v6 added for it; before: run 2798 via inject)
+//
+// Observations on the unchanged tree (not violations under the readings above):
+//   - a signature parameter with 1 or 16 bytes appended is accepted when the signer's key is ECDSA
+//     (core/crypto's ECDSA Verify ignores what follows the DER structure); the strict reading of "any
+//     alteration of the signature is rejected" does not hold for that key type, the identity is still proven;
+//   - a bearer token is accepted under every hostname of the server that issued it (DESIGN.md C19);
+//   - client: when the last response of a handshake carries no bearer (e.g. stripped), AuthenticatedDo returns
+//     the 401 with a nil error and the proven server ID and stores an empty token ("libp2p-PeerID "); later
+//     calls send it, get 400 (not 401) and return the cached ID with a nil error. The ID was proven in the
+//     earlier handshake, so this is outside the statement; it is why the token path of the client oracle is
+//     keyed on "no fresh challenge in the first request" rather than on the presence of a bearer parameter.
+//
+// C19_TRACE=1 prints the decoded trace of every run to stderr (debugging aid).
 package c19
 
 import (
@@ -517,7 +562,8 @@ func (w *world) legit(s *serverSim, host, authz string, p peer.ID, now time.Time
 	ps := lenientParams(authz)
 	rank := map[string]int{"expired-token": 1, "expired-challenge": 1, "challenge-of-other-hostname": 2, "sig-over-other-hostname": 2,
 		"sig-of-other-key": 3, "token-of-other-peer": 3, "token-of-other-server": 4, "challenge-of-other-server": 4, "token-as-challenge": 4,
-		"challenge-as-token": 4, "unknown-peer": 5, "invalid-sig": 5, "no-sig": 6, "altered-or-forged-token": 7, "altered-or-forged-state": 7, "no-credential": 9}
+		"challenge-as-token": 4, "unknown-peer": 5, "invalid-sig": 5, "no-sig": 6, "altered-or-forged-token": 7, "altered-or-forged-state": 7,
+		"undecodable-sig": 8, "undecodable-token": 8, "undecodable-state": 8, "no-credential": 9}
 	best := "no-credential"
 	note := func(r string) {
 		if rank[r] < rank[best] {
@@ -525,6 +571,9 @@ func (w *world) legit(s *serverSim, host, authz string, p peer.ID, now time.Time
 		}
 	}
 	for _, v := range ps["bearer"] {
+		if len(decodings(v)) == 0 {
+			note("undecodable-token")
+		}
 		for _, d := range decodings(v) {
 			t := s.toks[string(d)]
 			switch {
@@ -549,6 +598,9 @@ func (w *world) legit(s *serverSim, host, authz string, p peer.ID, now time.Time
 	}
 	who := w.partyByID(p)
 	for _, v := range ps["opaque"] {
+		if len(decodings(v)) == 0 {
+			note("undecodable-state")
+		}
 		for _, d := range decodings(v) {
 			c := s.chals[string(d)]
 			switch {
@@ -577,6 +629,9 @@ func (w *world) legit(s *serverSim, host, authz string, p peer.ID, now time.Time
 				note("no-sig")
 			}
 			for _, sv := range ps["sig"] {
+				if len(decodings(sv)) == 0 {
+					note("undecodable-sig")
+				}
 				for _, sg := range decodings(sv) {
 					if ok, _ := who.pub.Verify(clientSigData(c.chal, s.pubB, host), sg); ok {
 						return true, "sig"
@@ -685,6 +740,8 @@ func (w *world) call(c *clientSim, s *serverSim, host string, mode int) {
 		switch {
 		case len(ps["bearer"]) > 0 && i == 0:
 			flow += "T"
+		case len(ps["bearer"]) > 0:
+			flow += "b" // the request proper, with the token just obtained
 		case len(ps["sig"]) > 0 && len(ps["public-key"]) > 0:
 			flow += "S" // answer to a server-initiated challenge
 		case len(ps["sig"]) > 0:
@@ -887,7 +944,7 @@ func (w *world) RoundTrip(req *http.Request) (*http.Response, error) {
 
 	var ex *exchange
 	if malAnswers {
-		fv := w.g.Weighted(3, 1, 1, 1, 1, 1)
+		fv := w.g.Weighted(3, 1, 1, 1, 1, 1, 2)
 		act(fmt.Sprintf("mallory-answers v%d", fv))
 		ex = w.malloryAnswer(ctx, authz, fv)
 		fmt.Fprintf(&w.sig, "%s;", tag)
@@ -920,7 +977,7 @@ func (w *world) RoundTrip(req *http.Request) (*http.Response, error) {
 				act("resp-mutate " + d)
 			}
 		case 3:
-			fv := w.g.Weighted(3, 1, 1, 1, 1, 1)
+			fv := w.g.Weighted(3, 1, 1, 1, 1, 1, 2)
 			if cur == "" {
 				m := w.malloryAnswer(ctx, authz, fv)
 				hdrs, status = m.hdr, m.status
@@ -934,6 +991,7 @@ func (w *world) RoundTrip(req *http.Request) (*http.Response, error) {
 		}
 		if len(ctx.notes) > 0 {
 			fmt.Fprintf(&w.sig, "%s;", tag)
+			w.o.Logf("    delivered to %s as %d www{%s} info{%s} after %s", c.name, status, paramNames(hdrs.Get("WWW-Authenticate")), paramNames(hdrs.Get("Authentication-Info")), tag)
 		}
 	}
 	ctx.resps = append(ctx.resps, hdrs)
@@ -958,8 +1016,16 @@ func lastChallengeServer(ctx *callCtx) string {
 // forgeServerParams rewrites public-key and/or sig of a server response the way mallory would.
 // v0: mallory's key and mallory's correct signature (a legitimate proof of *mallory's* identity);
 // v1: the server's key stays, mallory signs; v2: mallory's key, the server's signature stays;
-// v3: mallory signs another hostname; v4: mallory signs another client key; v5: mallory signs a stale challenge.
+// v3: mallory signs another hostname; v4: mallory signs another client key; v5: mallory signs a stale challenge;
+// v6: only a public-key parameter naming mallory is added (else as v2).
 func (w *world) forgeServerParams(ctx *callCtx, h *hdr, v int, authz string) {
+	if v == 6 { // the real signature stays; a public-key parameter naming mallory is added where there was none
+		if _, ok := h.get("public-key"); !ok {
+			h.ps = append(h.ps, hp{k: "public-key", v: b64(w.mal.pubB)})
+			return
+		}
+		v = 2
+	}
 	if _, ok := h.get("public-key"); ok && v != 1 {
 		h.set("public-key", b64(w.mal.pubB))
 	}
@@ -1156,8 +1222,10 @@ func (w *world) bookReplay(ex *exchange, what, mut, tgt, when string) {
 			w.o.Probe("token-other-hostname-accepted") // DESIGN.md C19: observation, the code does not compare the token's hostname
 		case strings.HasPrefix(mut, "neutral:"):
 			w.o.Probe("neutral-reencoding-accepted")
-		case strings.HasPrefix(mut, "value:"):
-			w.o.Probe("altered-bytes-still-valid") // e.g. trailing bytes after an ECDSA signature's DER
+		case strings.HasPrefix(mut, "value:") && !strings.Contains(mut, "(challenge-server"):
+			// a credential parameter whose bytes changed and which core/crypto still verifies: trailing bytes
+			// after an ECDSA signature's DER (challenge-server is the client's own nonce, not a credential)
+			w.o.Probe("altered-bytes-still-valid")
 		}
 	}
 	if mut == "none" && tgt == "home" {
@@ -1199,7 +1267,19 @@ func (w *world) atkMallorySigned() {
 	victim := w.cli[g.Int(len(w.cli))].party
 	var c *chalRec
 	src := ""
-	switch g.Weighted(4, 2, 2) {
+	switch g.Weighted(4, 2, 2, 2) {
+	case 3:
+		for _, h2 := range s.hosts {
+			if h2 != host {
+				c = w.fetchChallenge(s, h2, 0, nil)
+				src = "fresh-under-other-hostname"
+				break
+			}
+		}
+		if c != nil {
+			break
+		}
+		fallthrough
 	case 0:
 		c = w.fetchChallenge(s, host, 0, nil)
 		src = "fresh"
@@ -1538,6 +1618,10 @@ func paramNames(s string) string {
 	var l []string
 	for _, tok := range strings.FieldsFunc(s, isSep) {
 		if k, _, ok := strings.Cut(tok, "="); ok {
+			// only names the harness knows: a damaged header can put random base64 in front of a '='
+			if !contains(paramOrder, strings.ToLower(k)) && k != "foo" && k != "pad" {
+				k = "<other>"
+			}
 			l = append(l, k)
 		}
 	}
@@ -1578,7 +1662,8 @@ func (w *world) mutate(h *hdr, varLenSig bool, min int) string {
 		3, 3, 3, 2, 2, 2, 2, 2, 2, // value: flip-head flip-tail flip-mid trunc1 trunc-half empty append1 append16 zeros
 		2, 2, 1, 1, 1, 2, 2, 2, 1, // text/neutral: swapcase extra-pad noquote squote upper-name noncanon-tail strip-pad std-alphabet space-inside
 		2, 2, 2, 1, 1, 1, 1, 1, 1, // hdr: drop dup-bogus-first dup-bogus-last reverse scheme-case prefix-scheme compact junk-param oversize
-		4, 3} // swap: same-name cross-name
+		4, 3, // swap: same-name cross-name
+		3} // inject a parameter the header does not have
 	if min > 0 {
 		weights[0] = 0
 	}
@@ -1596,11 +1681,18 @@ func (w *world) mutate(h *hdr, varLenSig bool, min int) string {
 	if m >= 1 && m <= 9 && (derr != nil || len(raw) == 0) {
 		m = 10 // not base64 (should not happen): damage the text instead
 	}
+	// A compressed secp256k1 point with a flipped x coordinate is a valid key with probability 1/2, which
+	// would make the rest of the history depend on random bytes: flips on such a key go to the prefix byte
+	// (bit 0: the other valid key with the same x; other bits: never a valid encoding).
+	secpKey := p.k == "public-key" && len(raw) == 37 && raw[0] == 0x08 && raw[1] == 0x02
 	switch m {
 	case 1:
 		i := a
 		if i >= len(raw) {
 			i = len(raw) - 1
+		}
+		if secpKey {
+			i = 4
 		}
 		raw[i] ^= 1 << bit
 		setRaw(raw)
@@ -1610,11 +1702,18 @@ func (w *world) mutate(h *hdr, varLenSig bool, min int) string {
 		if i < 0 {
 			i = 0
 		}
+		if secpKey {
+			i = 4
+		}
 		raw[i] ^= 1 << bit
 		setRaw(raw)
 		return fmt.Sprintf("value:flip-tail(%s,byte -%d,bit %d)", on, 1+a%16, bit)
 	case 3:
-		raw[len(raw)*(a%16)/16] ^= 1 << bit
+		i := len(raw) * (a % 16) / 16
+		if secpKey {
+			i = 4
+		}
+		raw[i] ^= 1 << bit
 		setRaw(raw)
 		return fmt.Sprintf("value:flip-at(%s,%d/16,bit %d)", on, a%16, bit)
 	case 4:
@@ -1751,6 +1850,37 @@ func (w *world) mutate(h *hdr, varLenSig bool, min int) string {
 		i := g.Int(len(w.seen[n]))
 		p.v = w.seen[n][i]
 		return fmt.Sprintf("swap:%s<-%s#%d", on, n, i)
+	case 30:
+		var names []string
+		for _, n := range paramOrder {
+			if _, has := h.get(n); !has && (len(w.seen[n]) > 0 || n == "public-key") {
+				names = append(names, n)
+			}
+		}
+		if len(names) == 0 {
+			h.ps = append(h.ps, hp{k: "foo", v: "bar"})
+			return "neutral:junk-param"
+		}
+		n := names[g.Int(len(names))]
+		var pool []string
+		if n == "public-key" {
+			pool = append(pool, b64(w.mal.pubB))
+			for _, q := range w.parties {
+				if q != w.mal {
+					pool = append(pool, b64(q.pubB))
+				}
+			}
+		} else {
+			pool = w.seen[n]
+		}
+		i := g.Int(len(pool))
+		np := hp{k: n, v: pool[i]}
+		if g.Bool() {
+			h.ps = append(h.ps, np)
+		} else {
+			h.ps = append([]hp{np}, h.ps...)
+		}
+		return fmt.Sprintf("hdr:inject(%s#%d)", n, i)
 	}
 	return "none"
 }
